@@ -60,6 +60,8 @@ PROPERTY_RULES: Dict[str, List[Scoped]] = {
         _r("RMQ-WINDOWS"), _r("EULER-INDEX"),
         _r("VARARGS-AS-GIVEN"),
         _r("KIND-ENUM-BASE"),
+        _r("FILL-OBJECT-MAJOR", ("compute.reconciliation:",)),
+        _r("EVAL-NO-SHORTCUT"),
     ],
     "C02": [
         _r("SENTINEL", S_SPFS, S_SUBSEQ), _r("COSTKEYS", S_SPFS), _r("PRUNE", S_SPFS), _r("EVENT-SIG", S_SPFS),
@@ -82,6 +84,7 @@ PROPERTY_RULES: Dict[str, List[Scoped]] = {
         _r("EVAL-NO-SHORTCUT"),
         _r("VARARGS-AS-GIVEN"),
         _r("KIND-ENUM-BASE"),
+        _r("FILL-OBJECT-MAJOR", ("compute.super_reconciliation:",)),
     ],
     "C03": [
         _r("READONLY-DECODE", S_USPFS), _r("COSTKEYS", S_USPFS), _r("PRUNE", S_USPFS), _r("EVENT-SIG", S_USPFS),
@@ -105,6 +108,7 @@ PROPERTY_RULES: Dict[str, List[Scoped]] = {
         _r("EVAL-NO-SHORTCUT"),
         _r("VARARGS-AS-GIVEN"),
         _r("KIND-ENUM-BASE"),
+        _r("FILL-OBJECT-MAJOR", ("compute.unordered_super_reconciliation:",)),
     ],
     "C04": [
         _r("DECODE-GUARD"), _r("DECODE-COMPLETE"), _r("LEAF-ANCHOR"), _r("SENTINEL"), _r("READONLY-DECODE"),
@@ -142,6 +146,7 @@ PROPERTY_RULES: Dict[str, List[Scoped]] = {
         _r("VARARGS-AS-GIVEN"),
         _r("GRAPH-KEYS"),
         _r("TABLE-ENTRY-POLICIES"),
+        _r("FILL-OBJECT-MAJOR"),
     ],
     "C06": [
         _r("MODEL-TABLE"), _r("LABEL-SIBLINGS"), _r("EVENT-EXHAUSTIVE"), _r("EVENT-TABLE"), _r("CONSERVED-SIDE"),
@@ -201,6 +206,7 @@ PROPERTY_RULES: Dict[str, List[Scoped]] = {
         _r("KINDS-COMPLETE"),
         _r("UPDATE-PAIRING"), _r("RETENTION-GUARDS"), _r("POLARITY"), _r("RESULT-SCOPE"),
         _r("EQ-BY-FIELDS"),
+        _r("FILL-OBJECT-MAJOR"),
     ],
     "C10": [
         _r("BASE-EXT-SHARE"), _r("EVENT-SIG"), _r("COSTKEYS"), _r("SIBLING-PAIRING"), _r("READONLY-DECODE"),
@@ -217,6 +223,7 @@ PROPERTY_RULES: Dict[str, List[Scoped]] = {
         _r("KINDS-COMPLETE"),
         _r("UPDATE-PAIRING"), _r("RETENTION-GUARDS"), _r("POLARITY"), _r("RESULT-SCOPE"),
         _r("GAIN-AT-LCA"),
+        _r("FILL-OBJECT-MAJOR"),
     ],
     "C11": [
         _r("DICT-KEYS"), _r("FIELDS-SERIALISED"), _r("TREE-WRITE-ARGS"), _r("ENUM-DISJOINT"), _r("MAPPING-KEYING"),
@@ -823,7 +830,9 @@ _DECIDED_ROUND9 = {
     'C16': ['update hands on the batch it was given: the vararg is never rebound or unpacked, and a cell written for the first time is created empty (VARARGS-AS-GIVEN)'],
 }
 _DECIDED_ROUND10 = {
-    'C01': ['the evaluator prices the kind that node_event assigns: the event local is bound once and no test of the evaluator reads the cost vector (EVAL-NO-SHORTCUT kind-from-node-event)'],
+    'C10': ['the tables are filled object by object, species inside: no fill helper is called with a species loop as its outermost loop (FILL-OBJECT-MAJOR)'],
+    'C09': ['FILL-OBJECT-MAJOR; equality of solutions by fields (EQ-BY-FIELDS)'],
+    'C01': ['the table is filled object by object (FILL-OBJECT-MAJOR); NodeEvent / EdgeEvent members are distinct objects with distinct values (KIND-ENUM-BASE)', 'the evaluator prices the kind that node_event assigns: the event local is bound once and no test of the evaluator reads the cost vector (EVAL-NO-SHORTCUT kind-from-node-event)'],
     'C05': ['nothing filters the decoded solutions between the decoder and the result entry (RESULT-SCOPE); entries handed out by Table.entry carry both policies of the table (TABLE-ENTRY-POLICIES)'],
     'C06': ['ties are recognised by exact equality in Entry.update, so the printed minimum is the cost of every written solution (UPDATE-PAIRING, RETENTION-GUARDS, POLARITY); generated labels are checked against every name of the tree (LABEL-GUARD); kind-from-node-event (EVAL-NO-SHORTCUT)'],
     'C12': ['the wrap width reaches the wrapping routine unchanged (WIDTH-VERBATIM); conditional keys of the dictionary form read back with the matching default (DICT-KEYS)'],
